@@ -69,7 +69,7 @@ RESULTS = {
     "C07-ght-keyed-bimorphism-map-while": ("C07", [("C07", "quick", "missed", "the change is in ght/lattice.rs (GhtNodeKeyedBimorphism); GHT is outside both verifiers' reach (C08 N/A) and the C07 claim lists the ght bimorphisms as NOT covered")]),
     "C10-counted-eq-same-keys-different-multiplicities": ("C10", [("C10", "quick", "missed", "counted-set equality is a thorough-tier obligation (minutes of CBMC)"),
                                                                    ("C10", "thorough", "UNDECIDED", "a three-insert equality harness with SYMBOLIC tuples, added because of this seed, timed out (900 s, loaded machine): exit 2; replaced by the concrete-tuple harnesses below"),
-                                                                   ("C10", "quick", "@C10A@", "kani vk_var hash_harness::counted_set_contract_eq_multiplicities_differ (concrete tuples, three inserts per side; 3 s) clause C10:counted_set_equality_is_multiset_equality")]),
+                                                                   ("C10", "quick", "VIOLATION", "kani vk_var hash_harness::counted_set_contract_eq_multiplicities_differ (concrete tuples, three inserts per side; 3 s) clause C10:counted_set_equality_is_multiset_equality")]),
     "C10-column-extend-len-from-size-hint": ("C10", [("C10", "quick", "missed", "first run: extend was only fed arrays (exact size_hint)"),
                                                      ("C10", "quick", "VIOLATION", "kani vk_var harness::column_multiset_extend_any_size_hint (added because of this seed: havoc iterator) clause C10:extend_len_counts_every_item_whatever_size_hint_said")]),
 }
